@@ -26,16 +26,25 @@ type PState struct {
 	alias map[ssa.Value]ssa.Value  // value -> canonical value it equals on this path
 	cell  map[*ssa.Alloc]ssa.Value // local cell -> canonical value last stored
 	tuple map[ssa.Value][]Tri      // multi-result call -> facts about its components
+	fcell map[fieldKey]ssa.Value   // (local literal, field) -> canonical value last stored
 	Flags uint64                   // rule-defined event bits (never pruned)
 }
 
+type fieldKey struct {
+	base  *ssa.Alloc
+	field int
+}
+
 func newPState() *PState {
-	return &PState{env: map[ssa.Value]Tri{}, alias: map[ssa.Value]ssa.Value{}, cell: map[*ssa.Alloc]ssa.Value{}, tuple: map[ssa.Value][]Tri{}}
+	return &PState{env: map[ssa.Value]Tri{}, alias: map[ssa.Value]ssa.Value{}, cell: map[*ssa.Alloc]ssa.Value{}, tuple: map[ssa.Value][]Tri{}, fcell: map[fieldKey]ssa.Value{}}
 }
 
 func (s *PState) clone() *PState {
 	n := &PState{env: make(map[ssa.Value]Tri, len(s.env)), alias: make(map[ssa.Value]ssa.Value, len(s.alias)),
-		cell: make(map[*ssa.Alloc]ssa.Value, len(s.cell)), tuple: make(map[ssa.Value][]Tri, len(s.tuple)), Flags: s.Flags}
+		cell: make(map[*ssa.Alloc]ssa.Value, len(s.cell)), tuple: make(map[ssa.Value][]Tri, len(s.tuple)), fcell: make(map[fieldKey]ssa.Value, len(s.fcell)), Flags: s.Flags}
+	for k, v := range s.fcell {
+		n.fcell[k] = v
+	}
 	for k, v := range s.env {
 		n.env[k] = v
 	}
@@ -178,6 +187,7 @@ func isNonNilProducer(cc *ssa.CallCommon) bool {
 type Outcome struct {
 	Results []Tri
 	Flags   uint64
+	Replace bool // Flags replace the caller's flags instead of being OR-ed in
 }
 
 // Explorer walks all paths of Fn path-sensitively for nil/bool tests (no solver: a
@@ -195,6 +205,9 @@ type Explorer struct {
 	// OnEdge is called when a CFG edge is taken.
 	OnEdge func(from, to *ssa.BasicBlock, st *PState)
 
+	// Keep lists values whose facts must survive liveness pruning (they are queried by the rule).
+	Keep map[ssa.Value]bool
+
 	MaxStates int
 	States    int
 	Exceeded  bool
@@ -202,6 +215,7 @@ type Explorer struct {
 	ids      map[ssa.Value]int
 	reach    [][]bool
 	useBlk   map[ssa.Value][]int
+	liveIn   map[ssa.Value]map[int]bool
 	noTrack  map[*ssa.Alloc]bool
 	seen     map[string]bool
 	work     []pwork
@@ -222,6 +236,7 @@ func (e *Explorer) prepare() {
 	e.ids = map[ssa.Value]int{}
 	e.reach = blockReach(e.Fn)
 	e.useBlk = map[ssa.Value][]int{}
+	e.liveIn = map[ssa.Value]map[int]bool{}
 	e.noTrack = map[*ssa.Alloc]bool{}
 	e.seen = map[string]bool{}
 	if e.MaxStates == 0 {
@@ -290,6 +305,9 @@ func (e *Explorer) key(b *ssa.BasicBlock, idx int, st *PState) string {
 	for k, v := range st.cell {
 		parts = append(parts, "c"+strconv.Itoa(e.id(k))+":"+strconv.Itoa(e.id(v)))
 	}
+	for k, v := range st.fcell {
+		parts = append(parts, "f"+strconv.Itoa(e.id(k.base))+"."+strconv.Itoa(k.field)+":"+strconv.Itoa(e.id(v)))
+	}
 	for k, v := range st.tuple {
 		s := "t" + strconv.Itoa(e.id(k)) + ":"
 		for _, t := range v {
@@ -301,42 +319,67 @@ func (e *Explorer) key(b *ssa.BasicBlock, idx int, st *PState) string {
 	return strconv.Itoa(b.Index) + "." + strconv.Itoa(idx) + "|" + strconv.FormatUint(st.Flags, 16) + "|" + strings.Join(parts, ";")
 }
 
-// liveAt: may value v still be used from block b on?
+// liveAt: is value v live on entry to block b? For instruction-defined values this is SSA
+// liveness (a use is reachable from b without passing v's definition); for parameters,
+// free variables and the like it is plain reachability of a use.
 func (e *Explorer) liveAt(v ssa.Value, b *ssa.BasicBlock) bool {
-	ub, ok := e.useBlk[v]
-	if !ok {
-		if refs := v.Referrers(); refs != nil {
-			seen := map[int]bool{}
-			for _, r := range *refs {
-				if r.Block() == nil {
-					continue
-				}
-				if p, isPhi := r.(*ssa.Phi); isPhi {
-					// a phi uses its operand at the end of the corresponding predecessor
-					for i, ed := range p.Edges {
-						if ed == v && !seen[p.Block().Preds[i].Index] {
-							seen[p.Block().Preds[i].Index] = true
-							ub = append(ub, p.Block().Preds[i].Index)
-						}
-					}
-					continue
-				}
-				if !seen[r.Block().Index] {
-					seen[r.Block().Index] = true
-					ub = append(ub, r.Block().Index)
-				}
-			}
-		} else {
-			ub = []int{-1} // no referrer info (e.g. Const, Function): keep
-		}
-		e.useBlk[v] = ub
+	if e.Keep[v] {
+		return true
 	}
-	for _, u := range ub {
-		if u < 0 || e.reach[b.Index][u] {
+	li, ok := e.liveIn[v]
+	if !ok {
+		li = map[int]bool{}
+		refs := v.Referrers()
+		if refs == nil {
+			li[-1] = true // no referrer information (Const, Function, Global): keep
+			e.liveIn[v] = li
 			return true
 		}
+		var def *ssa.BasicBlock
+		if in, isInstr := v.(ssa.Instruction); isInstr {
+			def = in.Block()
+		}
+		var stack []*ssa.BasicBlock
+		markIn := func(blk *ssa.BasicBlock) {
+			// v is live on entry to blk (unless blk defines it)
+			if blk == def {
+				if _, isPhi := v.(*ssa.Phi); isPhi {
+					li[blk.Index] = true // phis are assigned on the incoming edge: live at block entry
+				}
+				return
+			}
+			if !li[blk.Index] {
+				li[blk.Index] = true
+				stack = append(stack, blk)
+			}
+		}
+		for _, r := range *refs {
+			if r.Block() == nil {
+				continue
+			}
+			if p, isPhi := r.(*ssa.Phi); isPhi {
+				for i, ed := range p.Edges {
+					if ed == v {
+						markIn(p.Block().Preds[i]) // used at the end of the predecessor
+					}
+				}
+				continue
+			}
+			markIn(r.Block())
+		}
+		for len(stack) > 0 {
+			blk := stack[len(stack)-1]
+			stack = stack[:len(stack)-1]
+			for _, p := range blk.Preds {
+				markIn(p)
+			}
+		}
+		if def == nil {
+			// parameters etc.: live wherever a use is reachable; computed above by the same walk
+		}
+		e.liveIn[v] = li
 	}
-	return false
+	return li[-1] || li[b.Index]
 }
 
 func (e *Explorer) prune(st *PState, b *ssa.BasicBlock) {
@@ -352,6 +395,9 @@ func (e *Explorer) prune(st *PState, b *ssa.BasicBlock) {
 	for _, v := range st.cell {
 		targets[v] = true
 	}
+	for _, v := range st.fcell {
+		targets[v] = true
+	}
 	for k := range st.env {
 		if !targets[k] && !e.liveAt(k, b) {
 			delete(st.env, k)
@@ -365,6 +411,11 @@ func (e *Explorer) prune(st *PState, b *ssa.BasicBlock) {
 	for k := range st.cell {
 		if !e.liveAt(k, b) {
 			delete(st.cell, k)
+		}
+	}
+	for k := range st.fcell {
+		if !e.liveAt(k.base, b) {
+			delete(st.fcell, k)
 		}
 	}
 }
@@ -425,6 +476,11 @@ func (e *Explorer) redefine(st *PState, v ssa.Value) {
 			delete(st.cell, k)
 		}
 	}
+	for k, t := range st.fcell {
+		if t == v || ssa.Value(k.base) == v {
+			delete(st.fcell, k)
+		}
+	}
 }
 
 func (e *Explorer) execBlock(b *ssa.BasicBlock, start int, st *PState) {
@@ -444,11 +500,23 @@ func (e *Explorer) execBlock(b *ssa.BasicBlock, start int, st *PState) {
 			if al, ok := x.Addr.(*ssa.Alloc); ok && !e.noTrack[al] {
 				st.cell[al] = st.Canon(x.Val)
 			}
+			if fa, ok := x.Addr.(*ssa.FieldAddr); ok {
+				if al, ok := st.Canon(fa.X).(*ssa.Alloc); ok {
+					st.fcell[fieldKey{al, fa.Field}] = st.Canon(x.Val)
+				}
+			}
 		case *ssa.UnOp:
 			if x.Op == token.MUL {
 				if al, ok := x.X.(*ssa.Alloc); ok && !e.noTrack[al] {
 					if c, ok := st.cell[al]; ok {
 						st.alias[x] = c
+					}
+				}
+				if fa, ok := x.X.(*ssa.FieldAddr); ok {
+					if al, ok := st.Canon(fa.X).(*ssa.Alloc); ok {
+						if c, ok := st.fcell[fieldKey{al, fa.Field}]; ok {
+							st.alias[x] = c
+						}
 					}
 				}
 			}
@@ -457,12 +525,25 @@ func (e *Explorer) execBlock(b *ssa.BasicBlock, start int, st *PState) {
 				st.env[x] = ts[x.Index]
 			}
 		case *ssa.Call:
+			for _, arg := range x.Common().Args {
+				if al, ok := st.Canon(arg).(*ssa.Alloc); ok {
+					for k := range st.fcell {
+						if k.base == al {
+							delete(st.fcell, k)
+						}
+					}
+				}
+			}
 			if e.Outcomes != nil {
 				outs := e.Outcomes(x, st)
 				if len(outs) > 0 {
 					for _, o := range outs {
 						ns := st.clone()
-						ns.Flags |= o.Flags
+						if o.Replace {
+							ns.Flags = o.Flags
+						} else {
+							ns.Flags |= o.Flags
+						}
 						if x.Common().Signature().Results().Len() == 1 {
 							if len(o.Results) > 0 && o.Results[0] != TriUnknown {
 								ns.env[x] = o.Results[0]
@@ -603,6 +684,8 @@ type Summarizer struct {
 	OnInstr func(fn *ssa.Function, in ssa.Instruction, st *PState) bool
 	// Follow decides whether a static callee is summarised (default: bluge functions with bodies).
 	Follow func(fn *ssa.Function) bool
+	// Combine merges the caller's flags with the flags of one callee outcome (default: OR).
+	Combine func(caller, callee uint64) uint64
 
 	memo     map[*ssa.Function][]RetOutcome
 	inFlight map[*ssa.Function]bool
@@ -675,7 +758,12 @@ func (s *Summarizer) Explorer(fn *ssa.Function) *Explorer {
 		}
 		var outs []Outcome
 		for _, r := range sum {
-			outs = append(outs, Outcome{Results: r.Results, Flags: r.Flags})
+			o := Outcome{Results: r.Results, Flags: r.Flags}
+			if s.Combine != nil {
+				o.Flags = s.Combine(st.Flags, r.Flags)
+				o.Replace = true
+			}
+			outs = append(outs, o)
 		}
 		return outs
 	}
